@@ -49,6 +49,16 @@ func gen(tier string) []proto.RTItem {
 				items = append(items, proto.RTItem{Scn: reqFor(m, c, e2e), Class: fmt.Sprintf("method=%q/capability=%q/e2e=%d/no-fault", m, c, e2e)})
 			}
 		}
+		// the caller's context is already cancelled / is cancelled a millisecond into the call: whatever the request then
+		// answers (the cancellation, or the trace it was asked for), a cancelled caller is not "SACK unavailable" and does
+		// not turn the request into a SYN trace
+		if m == "sack" || m == "prefer_sack" {
+			for _, at := range []int{-1, 1, 15} {
+				r := req(m, "", 0)
+				r.CancelAtMs = at
+				items = append(items, proto.RTItem{Scn: r, Class: fmt.Sprintf("method=%q/caller-cancelled-at-%dms", m, at), Note: map[string]string{"cancelled": "1"}})
+			}
+		}
 		// non-capability failures (capability fine): every filter installation, every send, every read
 		for _, f := range []simnet.Fault{{Op: "SetPacketFilter", K: 1, Class: "fatal"}, {Op: "SetPacketFilter", K: 2, Class: "fatal"}, {Op: "WriteTo", K: -1, Class: "fatal"}, {Op: "Read", K: -1, Class: "fatal"},
 			{Op: "NewSource", K: 1, Class: "fatal"}, {Op: "NewSink", K: 1, Class: "fatal"}, {Op: "SetReadDeadline", K: -1, Class: "fatal"}} {
@@ -137,7 +147,9 @@ func check(it *proto.RTItem, r *proto.RTResult) []proto.Issue {
 			if synTrace > 0 {
 				out = append(out, proto.Issue{Key: "fallback-although-sack-available", Detail: r.Summary()})
 			}
-			if r.Err != nil {
+			if r.Err != nil && it.Note["cancelled"] != "" {
+				// the cancellation may be what the request answers
+			} else if r.Err != nil {
 				out = append(out, proto.Issue{Key: "unexpected-error", Detail: r.Err.Error()})
 			} else if sackTrace == 0 {
 				out = append(out, proto.Issue{Key: "no-sack-trace", Detail: r.Summary()})
